@@ -73,6 +73,27 @@ FAMILIES = {
                                      DomShapes={'elements', 'intrange', 'floatrange', 'tworanges', 'mixture', 'mixedfloat', 'unset'},
                                      Seeds={0, 1, 2, 3, 4, 5, 6, 7})),
     },
+    # pairs: each model with its order-permuted copies and its single-point edits
+    'Eq': {
+        'quick':    dict(module='FMEqGen', spec='ESpec', emit='EEmit', emit_all=False,
+                         consts=dict(N=5, MaxKids=2, MinHi=1,
+                                     Strategies={'revkids', 'rotkids', 'revrels', 'revall'}),
+                         invariants=['InvWellFormed', 'L11_Eq']),
+        'thorough': dict(module='FMEqGen', spec='ESpec', emit='EEmit', emit_all=False,
+                         consts=dict(N=5, MaxKids=4, MinHi=1, Axes={'ctc'}, MaxCtc=1, CtcDepth=1, CtcBinOps={'AND', 'IMPLIES'},
+                                     Strategies={'revkids', 'rotkids', 'revrels', 'revctcs', 'revall'}),
+                         invariants=['InvWellFormed', 'L11_Eq']),
+    },
+    'Eq2': {   # two constraints, so that constraint order matters
+        'quick':    dict(module='FMEqGen', spec='ESpec', emit='EEmit', emit_all=False,
+                         consts=dict(N=2, MaxKids=1, MinHi=1, Axes={'ctc'}, MaxCtc=2, CtcDepth=1, CtcBinOps={'OR', 'EXCLUDES'},
+                                     Strategies={'revctcs', 'revall'}),
+                         invariants=['InvWellFormed', 'L11_Eq']),
+        'thorough': dict(module='FMEqGen', spec='ESpec', emit='EEmit', emit_all=False,
+                         consts=dict(N=3, MaxKids=2, MinHi=1, Axes={'ctc'}, MaxCtc=2, CtcDepth=1, CtcBinOps={'OR', 'EXCLUDES'},
+                                     Strategies={'revctcs', 'revall'}),
+                         invariants=['InvWellFormed', 'L11_Eq']),
+    },
 }
 
 _cache = {}
@@ -86,6 +107,8 @@ def generate(fam, tier, seed, workdir):
     cases, st = tlc.run_generator(workdir, spec['consts'], module=spec.get('module', 'FM'),
                                   defaults=spec.get('defaults', True), invariants=spec.get('invariants', ()),
                                   simulate=spec.get('simulate'), seed=seed,
-                                  constraint=spec.get('constraint'), extra_defs=spec.get('extra_defs', ''))
+                                  constraint=spec.get('constraint'), extra_defs=spec.get('extra_defs', ''),
+                                  spec_name=spec.get('spec', 'Spec'), emit_name=spec.get('emit', 'Emit'),
+                                  emit_all=spec.get('emit_all', True))
     _cache[key] = (cases, st)
     return cases, st
